@@ -54,6 +54,11 @@ def rand_tree(rng, n_ops, level=0):
     if k in ("neg", "not"):
         return (k, rand_tree(rng, n_ops - 1, 0 if k == "not" else 2))
     left = rng.randint(0, n_ops - 1)
+    if k in ("add", "sub", "mul", "div", "pow") and n_ops >= 3 and rng.random() < .2:
+        # an arithmetic operator whose operands are parenthesised comparisons / boolean groups: ([a] > 1) + ([b] > 1)
+        l = rand_tree(rng, max(1, left), 0)
+        r = rand_tree(rng, max(1, n_ops - 1 - max(1, left)), 0)
+        return (k, l, r)
     if k in ("or", "and"):
         return (k, rand_tree(rng, left, 0), rand_tree(rng, n_ops - 1 - left, 0))
     if k == "cmp":
